@@ -63,6 +63,15 @@ Theorem C15_format_parse_fix_mysql_refuted :
 Proof. exact MysqlProofs.mysql_fix_refuted. Qed.
 Print Assumptions C15_format_parse_fix_mysql_refuted.
 
+(** A second, independent witness (found in round 5, reproduced on the Go code: known finding
+    C15-mysql-enum-value-comma): the value "," -- enum(',') is split at quote-comma-quote into two
+    empty values. *)
+Theorem C15_format_parse_fix_mysql_refuted_comma :
+  exists t s, Mysql.FormatType t = Ok s /\
+    ~ (exists t', Mysql.ParseType s = Ok t' /\ Mysql.FormatType t' = Ok s).
+Proof. exact MysqlProofs.mysql_fix_refuted_comma. Qed.
+Print Assumptions C15_format_parse_fix_mysql_refuted_comma.
+
 (** What holds, for unbounded size / precision / scale / time precision: every type whose T
     is (case-insensitively) a name of its class and whose size parameters are non-negative
     ([MysqlProofs.wf]) is a fixpoint. PARTIAL: ENUM and SET value lists are excluded ([wf] is
